@@ -215,7 +215,16 @@ impl AsyncSeek for SimAsyncRead {
 }
 
 pub struct AsyncSinkState {
+    /// bytes that reached the destination
     pub data: Vec<u8>,
+    /// buffering sink (as tokio::io::BufWriter): accepted bytes reach `data` only when a flush or
+    /// shutdown completes; what is still here at the end is lost
+    pub buffered: bool,
+    pub unflushed: Vec<u8>,
+    /// writes after a completed shutdown: a strict sink (socket, pipe) fails them with BrokenPipe;
+    /// a lenient one (file) accepts them
+    pub strict: bool,
+    pub writes_after_shutdown: u64,
     pub shutdown: bool,
     /// bytes were accepted since the last completed flush: only then may a flush be Pending (a
     /// sink with nothing to flush completes at once; otherwise an adversary that alternates
@@ -235,6 +244,11 @@ impl SimAsyncWrite {
         Self {
             state: Arc::new(Mutex::new(AsyncSinkState {
                 data: Vec::new(),
+                // the sink's personality is part of the poll plan (plain plan: unbuffered, lenient)
+                buffered: plan.is_adversarial() && plan.seed & 1 == 1,
+                unflushed: Vec::new(),
+                strict: plan.is_adversarial() && plan.seed & 2 == 2,
+                writes_after_shutdown: 0,
                 shutdown: false,
                 dirty: false,
                 shutdown_pended: false,
@@ -255,7 +269,17 @@ impl AsyncWrite for SimAsyncWrite {
         }
         let n = adv.grant(buf.len());
         let mut st = self.state.lock().unwrap();
-        st.data.extend_from_slice(&buf[..n]);
+        if st.shutdown && !buf.is_empty() {
+            st.writes_after_shutdown += 1;
+            if st.strict {
+                return Poll::Ready(Err(io::Error::new(io::ErrorKind::BrokenPipe, "nsim: write after shutdown")));
+            }
+        }
+        if st.buffered {
+            st.unflushed.extend_from_slice(&buf[..n]);
+        } else {
+            st.data.extend_from_slice(&buf[..n]);
+        }
         st.dirty |= n > 0;
         Poll::Ready(Ok(n))
     }
@@ -267,7 +291,10 @@ impl AsyncWrite for SimAsyncWrite {
             return Poll::Pending;
         }
         adv.counters.lock().unwrap().flushes += 1;
-        self.state.lock().unwrap().dirty = false;
+        let mut st = self.state.lock().unwrap();
+        st.dirty = false;
+        let pending = std::mem::take(&mut st.unflushed);
+        st.data.extend_from_slice(&pending);
         Poll::Ready(Ok(()))
     }
 
@@ -287,6 +314,8 @@ impl AsyncWrite for SimAsyncWrite {
         let mut st = self.state.lock().unwrap();
         st.shutdown = true;
         st.dirty = false;
+        let pending = std::mem::take(&mut st.unflushed);
+        st.data.extend_from_slice(&pending);
         Poll::Ready(Ok(()))
     }
 }
